@@ -197,7 +197,10 @@ CLAIMS = {
          "captured variable bound to a Ref, that very location). Tie (L1, exact, names included): the model lifts the REAL Mono file in the REAL "
          "pre-lift environment and its functions, closure env structs, rewritten user structs and registered function types must equal the REAL "
          "LiftFile/GlobalLiftEnv node by node, for the corpus and for seeded closure-centred programs (every capture set, nesting up to 4, every "
-         "flow of a function value). Oracle independent of the model: the REAL Mono, Lift and ANF dumps under Sem and the REAL Go under Go.Sem must "
+         "flow of a function value; plus one program per syntactic context collect_captured has to walk x kind of outer variable x nesting 1..3 "
+         "with the variable used nowhere else). The case list of collect_captured is regenerated from lift.rs on every run, checked against the "
+         "LiftExpr declaration (every sub-expression field walked) and proved equal to the model's traversal (capture_walk_table). "
+         "Oracle independent of the model: the REAL Lift file must be closed (no lifted function mentions a local it does not bind); the REAL Mono, Lift and ANF dumps under Sem and the REAL Go under Go.Sem must "
          "agree whenever Go.Check accepts the Go.",
     design_ref="§5 C08, 'C08 — as built'",
     note="PARTIAL: DirectFlow is a hypothesis decided per program (by running the verified check on the model's output / the real output), not a "
